@@ -1,17 +1,30 @@
 #!/usr/bin/env python3
-"""arch_batch.py <json file>: {"C01/1": ["slug", "strengthened text or empty"], ...} - confirms each seeded change in /tmp/seed-<ID>-out/<k>
-with tools/try_seed.sh (final state of the checks) and archives it with tools/keep_seed.py"""
+"""arch_batch.py <json file> [base dir pattern, default /tmp/seed-{pid}-out/{k}] [filter]: {"C01/1": ["slug", "strengthened text or empty"], ...}
+confirms each seeded change with tools/try_seed.sh (final state of the checks; 4 at a time) and archives it with tools/keep_seed.py"""
 import subprocess, re, json, sys
+from concurrent.futures import ThreadPoolExecutor
 spec = json.load(open(sys.argv[1]))
-for key, (slug, strength) in spec.items():
+fmt = sys.argv[2] if len(sys.argv) > 2 else '/tmp/seed-{pid}-out/{k}'
+flt = sys.argv[3].split(',') if len(sys.argv) > 3 else None
+
+
+def one(item):
+    key, (slug, strength) = item
     pid, k = key.split('/')
-    d = f'/tmp/seed-{pid}-out/{k}'
+    if flt and pid not in flt:
+        return
+    d = fmt.format(pid=pid, k=k)
     out = subprocess.run(['/verif/tools/try_seed.sh', pid, d], capture_output=True, text=True).stdout
     m = re.search(r'demo_clean=(\d+) demo_patched=(\d+) suite=(\w+) check_quick=(\d+) ?(.*)', out)
     if not m or m.group(1) != '0' or m.group(2) == '0' or m.group(3) != 'pass':
-        print(key, 'NOT CONFIRMED', out.strip()[-200:]); continue
+        print(key, 'NOT CONFIRMED', out.strip()[-200:], flush=True)
+        return
     rc, sigs = m.group(4), m.group(5)
     sig = ', '.join(x.replace('signature=', '') for x in sigs.split()[:3])
     caught = f'caught by {pid} quick: {sig}' if rc == '1' else f'MISSED by {pid} quick (exit {rc})'
     print(key, caught, flush=True)
     subprocess.run(['/usr/bin/python3', '/verif/tools/keep_seed.py', pid, d, slug, caught, ('yes: ' + strength) if strength else ''])
+
+
+with ThreadPoolExecutor(4) as ex:
+    list(ex.map(one, spec.items()))
